@@ -157,9 +157,10 @@ def resource_block(rng, nseg=None, hostile=False):
         nseg = 1 if rng.random() < 0.6 else rng.randint(2, 4)
     c.append(['Number of Segments', nseg])
     for k in range(1, nseg + 1):
-        c.append([f'Gradient {k}', _round(rng.uniform(25, 85), 4)])
+        # (one value in twelve is the parameter's declared default - 50 degC/km, 2 km - a figure like any other)
+        c.append([f'Gradient {k}', 50 if rng.random() < 0.08 else _round(rng.uniform(25, 85), 4)])
         if k < nseg:
-            c.append([f'Thickness {k}', _round(rng.uniform(0.3, 2.0), 3)])
+            c.append([f'Thickness {k}', 2 if rng.random() < 0.08 else _round(rng.uniform(0.3, 2.0), 3)])
     r = rng.random()
     tmax = 400 if r < 0.5 else (_round(rng.uniform(120, 260), 4) if r < 0.85 else _round(rng.uniform(260, 600), 4))
     c.append(['Maximum Temperature', tmax])
@@ -194,6 +195,8 @@ def resource_block_hostile(rng):
                 h = 100.0
             elif r < 0.1:
                 h = _round(rng.choice([0.01, 99.9, rng.uniform(10, 100)]), 4)
+            elif r < 0.2:
+                h = 2                      # the declared default of 'Thickness 1'
             else:
                 h = _round(rng.uniform(0.05, 3.0), 3)
             c.append([f'Thickness {k}', h])
